@@ -16,7 +16,7 @@ def check(res):
     st = run_script(res, s, known, "C11", in_scope)
     # the same table with very many distinct main variants, requested in address order (the lookup tree gets as deep as it can)
     import re
-    bulk_n = 300000 if res.tier == "quick" else 3000000
+    bulk_n = 3400000 if res.tier == "quick" else 14000000      # paths of 41 / 45 nodes in the table
     bexe = build_driver("c11_bulk_driver", "asan")
     pb = run([bexe, str(bulk_n)], env=SAN_ENV, timeout=3600)
     mb = re.search(r"bulk n=(\d+) bad_main=(\d+) bad_quals=(\d+) bad_identity=(\d+) bad_nesting=(\d+)", pb.stdout)
